@@ -247,13 +247,60 @@ theorem lookup_found {st : Store} {r : Req} {e : Entry} {rv : Bytes}
           · cases h
           · cases h
 
-/-- what a hit of the reply to request `j`, delivered to request `i`, implies -/
-def HitOK (all : List (Req × Resp)) (i j : Nat) : Prop :=
+/-- what the selection of the stored reply to request `j` for request `i` implies (hit or successful revalidation) -/
+def SelOK (all : List (Req × Resp)) (i j : Nat) : Prop :=
   j < i ∧ ∃ ri respi rj respj, all[i]? = some (ri, respi) ∧ all[j]? = some (rj, respj) ∧
     (respj.varyLines = [] ∨
       (∃ k rk respk, k < i ∧ all[k]? = some (rk, respk) ∧
         makeMark respk.varyLines ri.hdrs = makeMark respj.varyLines rj.hdrs) ∧
-      makeMark respj.varyLines rj.hdrs ≠ [] ∧ makeMark respj.varyLines rj.hdrs ≠ star)
+      makeMark respj.varyLines rj.hdrs ≠ [])
+
+/-- what a hit (no origin contact) of the reply to request `j`, delivered to request `i`, implies -/
+def HitOK (all : List (Req × Resp)) (i j : Nat) : Prop :=
+  SelOK all i j ∧ ∀ rj respj, all[j]? = some (rj, respj) → respj.varyLines ≠ [] → makeMark respj.varyLines rj.hdrs ≠ star
+
+theorem lookup_sel {all : List (Req × Resp)} {n : Nat} {st : Store} {r : Req} {resp : Resp} {e : Entry} {rv : Bytes} {i : Nat}
+    (hinv : Inv all n st) (hn : all[n]? = some (r, resp)) (hl : lookup st r = (.found e, rv)) (hb : e.body = some i) :
+    SelOK all n i ∧ (e.revalAlways = false → ∀ rj respj, all[i]? = some (rj, respj) → respj.varyLines ≠ [] →
+      makeMark respj.varyLines rj.hdrs ≠ star) := by
+  obtain ⟨⟨k, hm⟩, hcase⟩ := lookup_found hl
+  obtain ⟨hk, hbody, _⟩ := hinv k e hm
+  obtain ⟨hlt, rj, respj, hj, hvl, hmark, hrev⟩ := hbody i hb
+  refine ⟨⟨hlt, r, resp, rj, respj, hn, hj, ?_⟩, ?_⟩
+  · rcases hcase with hnv | ⟨hmne, k0, e0, hm0, he0, hmm⟩
+    · left; rw [← hvl]; exact hnv
+    · right
+      have hne : respj.varyLines.isEmpty = false := by
+        cases hx : respj.varyLines.isEmpty with
+        | false => rfl
+        | true => rw [hx] at hmark; simp at hmark; exact absurd hmark hmne
+      simp only [hne, Bool.false_eq_true, ↓reduceIte] at hmark
+      refine ⟨?_, by rw [← hmark]; exact hmne⟩
+      -- the entry the mark was rendered from: a marker or a stored reply
+      obtain ⟨_, hb0, hmk0⟩ := hinv k0 e0 hm0
+      cases hbody0 : e0.body with
+      | none =>
+        obtain ⟨_, _, j0, hj0, r0, resp0, ha0, hmm0⟩ := hmk0 hbody0
+        exact ⟨j0, r0, resp0, hj0, ha0, by rw [← hmm0, hmm, hmark]⟩
+      | some j0 =>
+        obtain ⟨hj0, r0, resp0, ha0, hvl0, _, _⟩ := hb0 j0 hbody0
+        exact ⟨j0, r0, resp0, hj0, ha0, by rw [← hvl0, hmm, hmark]⟩
+  · intro hra rj' respj' hj' hvne
+    rw [hj] at hj'
+    injection hj' with hj'
+    injection hj' with h1 h2
+    subst h1; subst h2
+    have hne : respj.varyLines.isEmpty = false := by
+      cases hx : respj.varyLines.isEmpty with
+      | false => rfl
+      | true => exact absurd (isEmpty_true_eq hx) hvne
+    simp only [hne, Bool.false_eq_true, ↓reduceIte] at hmark
+    rw [← hmark]
+    intro hs
+    rw [hs] at hrev
+    simp only [beq_self_eq_true] at hrev
+    rw [hrev] at hra
+    cases hra
 
 theorem step_hit {all : List (Req × Resp)} {n : Nat} {st st' : Store} {r : Req} {resp : Resp} {j : Nat}
     (hinv : Inv all n st) (hn : all[n]? = some (r, resp)) (h : step st r resp n = (st', .hit j)) :
@@ -263,42 +310,37 @@ theorem step_hit {all : List (Req × Resp)} {n : Nat} {st st' : Store} {r : Req}
   · cases h
   · rename_i e rv hl
     split at h
-    · cases h
+    · split at h
+      · split at h <;> cases h
+      · cases h
     · rename_i hra
       split at h
       · rename_i i hb
         injection h with _ h2
         injection h2 with h2
         subst h2
-        obtain ⟨⟨k, hm⟩, hcase⟩ := lookup_found hl
-        obtain ⟨hk, hbody, _⟩ := hinv k e hm
-        obtain ⟨hlt, rj, respj, hj, hvl, hmark, hrev⟩ := hbody i hb
-        refine ⟨hlt, r, resp, rj, respj, hn, hj, ?_⟩
-        rcases hcase with hnv | ⟨hmne, k0, e0, hm0, he0, hmm⟩
-        · left; rw [← hvl]; exact hnv
-        · right
-          have hne : respj.varyLines.isEmpty = false := by
-            cases hx : respj.varyLines.isEmpty with
-            | false => rfl
-            | true => rw [hx] at hmark; simp at hmark; exact absurd hmark hmne
-          simp only [hne, Bool.false_eq_true, ↓reduceIte] at hmark
-          refine ⟨?_, by rw [← hmark]; exact hmne, ?_⟩
-          · -- the entry the mark was rendered from: a marker or a stored reply
-            obtain ⟨_, hb0, hmk0⟩ := hinv k0 e0 hm0
-            cases hbody0 : e0.body with
-            | none =>
-              obtain ⟨_, _, j0, hj0, r0, resp0, ha0, hmm0⟩ := hmk0 hbody0
-              exact ⟨j0, r0, resp0, hj0, ha0, by rw [← hmm0, hmm, hmark]⟩
-            | some j0 =>
-              obtain ⟨hj0, r0, resp0, ha0, hvl0, _, _⟩ := hb0 j0 hbody0
-              exact ⟨j0, r0, resp0, hj0, ha0, by rw [← hvl0, hmm, hmark]⟩
-          · rw [← hmark]
-            intro hs
-            rw [hs] at hrev
-            simp only [beq_self_eq_true] at hrev
-            rw [hrev] at hra
-            exact hra rfl
+        have := lookup_sel hinv hn hl hb
+        exact ⟨this.1, this.2 (by simpa using hra)⟩
       · cases h
+
+theorem step_reval {all : List (Req × Resp)} {n : Nat} {st st' : Store} {r : Req} {resp : Resp} {j : Nat}
+    (hinv : Inv all n st) (hn : all[n]? = some (r, resp)) (h : step st r resp n = (st', .revalidated j)) :
+    SelOK all n j := by
+  unfold step at h
+  split at h
+  · cases h
+  · rename_i e rv hl
+    split at h
+    · split at h
+      · split at h
+        · rename_i i hb
+          injection h with _ h2
+          injection h2 with h2
+          subst h2
+          exact (lookup_sel hinv hn hl hb).1
+        · cases h
+      · cases h
+    · split at h <;> cases h
 
 theorem step_inv {all : List (Req × Resp)} {n : Nat} {st : Store} {r : Req} {resp : Resp}
     (hinv : Inv all n st) (hn : all[n]? = some (r, resp)) : Inv all (n + 1) (step st r resp n).1 := by
@@ -306,27 +348,103 @@ theorem step_inv {all : List (Req × Resp)} {n : Nat} {st : Store} {r : Req} {re
   split
   · exact storeReply_inv hinv hn _
   · split
-    · exact storeReply_inv hinv hn _
+    · split
+      · split <;> exact hinv.mono
+      · exact storeReply_inv hinv hn _
     · split <;> exact hinv.mono
 
 /-- never is an internal marker object delivered -/
 theorem step_no_marker {all : List (Req × Resp)} {n : Nat} {st : Store} {r : Req} {resp : Resp}
     (hinv : Inv all n st) : (step st r resp n).2 ≠ .markerServed := by
+  have key : ∀ e rv, lookup st r = (.found e, rv) → e.body ≠ none := by
+    intro e rv hl hb
+    obtain ⟨⟨k, hm⟩, hcase⟩ := lookup_found hl
+    obtain ⟨hk, _, hmk⟩ := hinv k e hm
+    obtain ⟨hm0, hvl, _⟩ := hmk hb
+    rcases hcase with hnv | ⟨hne, _⟩
+    · exact hvl hnv
+    · exact hne hm0
   unfold step
   split
   · simp
   · rename_i e rv hl
     split
-    · simp
+    · split
+      · split
+        · simp
+        · rename_i hb; exact absurd hb (key e rv hl)
+      · simp
     · split
       · simp
-      · rename_i hb
-        exfalso
-        obtain ⟨⟨k, hm⟩, hcase⟩ := lookup_found hl
-        obtain ⟨hk, _, hmk⟩ := hinv k e hm
-        obtain ⟨hm0, hvl, _⟩ := hmk hb
-        rcases hcase with hnv | ⟨hne, _⟩
-        · exact hvl hnv
-        · exact hne hm0
+      · rename_i hb; exact absurd hb (key e rv hl)
+
+/-! ### whole histories -/
+
+theorem runFrom_hit (all : List (Req × Resp)) : ∀ (rest : List (Req × Resp)) (st : Store) (n : Nat),
+    Inv all n st → (∀ k, rest[k]? = all[n + k]?) →
+    ∀ k j, (runFrom st n rest).2[k]? = some (.hit j) → HitOK all (n + k) j := by
+  intro rest
+  induction rest with
+  | nil => intro st n _ _ k j h; simp [runFrom] at h
+  | cons p rest ih =>
+    intro st n hinv hall k j h
+    obtain ⟨r, resp⟩ := p
+    have hn : all[n]? = some (r, resp) := by simpa using (hall 0).symm
+    simp only [runFrom] at h
+    cases k with
+    | zero =>
+      simp only [List.getElem?_cons_zero, Option.some.injEq] at h
+      exact step_hit hinv hn (Prod.ext rfl h)
+    | succ k =>
+      simp only [List.getElem?_cons_succ] at h
+      have := ih (step st r resp n).1 (n + 1) (step_inv hinv hn)
+        (fun k => by have := hall (k + 1); simp only [List.getElem?_cons_succ] at this; rw [this]; congr 1; omega) k j h
+      have he : n + (k + 1) = n + 1 + k := by omega
+      rw [he]; exact this
+
+theorem runFrom_reval (all : List (Req × Resp)) : ∀ (rest : List (Req × Resp)) (st : Store) (n : Nat),
+    Inv all n st → (∀ k, rest[k]? = all[n + k]?) →
+    ∀ k j, (runFrom st n rest).2[k]? = some (.revalidated j) → SelOK all (n + k) j := by
+  intro rest
+  induction rest with
+  | nil => intro st n _ _ k j h; simp [runFrom] at h
+  | cons p rest ih =>
+    intro st n hinv hall k j h
+    obtain ⟨r, resp⟩ := p
+    have hn : all[n]? = some (r, resp) := by simpa using (hall 0).symm
+    simp only [runFrom] at h
+    cases k with
+    | zero =>
+      simp only [List.getElem?_cons_zero, Option.some.injEq] at h
+      exact step_reval hinv hn (Prod.ext rfl h)
+    | succ k =>
+      simp only [List.getElem?_cons_succ] at h
+      have := ih (step st r resp n).1 (n + 1) (step_inv hinv hn)
+        (fun k => by have := hall (k + 1); simp only [List.getElem?_cons_succ] at this; rw [this]; congr 1; omega) k j h
+      have he : n + (k + 1) = n + 1 + k := by omega
+      rw [he]; exact this
+
+theorem runFrom_no_marker (all : List (Req × Resp)) : ∀ (rest : List (Req × Resp)) (st : Store) (n : Nat),
+    Inv all n st → (∀ k, rest[k]? = all[n + k]?) → Obs.markerServed ∉ (runFrom st n rest).2 := by
+  intro rest
+  induction rest with
+  | nil => intro st n _ _; simp [runFrom]
+  | cons p rest ih =>
+    intro st n hinv hall
+    obtain ⟨r, resp⟩ := p
+    have hn : all[n]? = some (r, resp) := by simpa using (hall 0).symm
+    simp only [runFrom, List.mem_cons, not_or]
+    refine ⟨fun hc => step_no_marker hinv hc.symm, ?_⟩
+    exact ih (step st r resp n).1 (n + 1) (step_inv hinv hn)
+      (fun k => by have := hall (k + 1); simp only [List.getElem?_cons_succ] at this; rw [this]; congr 1; omega)
+
+theorem inv_empty (all : List (Req × Resp)) : Inv all 0 [] := by
+  intro k e hm; cases hm
+
+theorem runFrom_length : ∀ (rest : List (Req × Resp)) (st : Store) (n : Nat), (runFrom st n rest).2.length = rest.length := by
+  intro rest
+  induction rest with
+  | nil => intro st n; simp [runFrom]
+  | cons p rest ih => intro st n; simp [runFrom, ih]
 
 end SquidModel.Cache.Vary
